@@ -388,13 +388,14 @@ func (v *PacketDslFormattor) VisitMatchFieldDeclaration(ctx *gen.MatchFieldDecla
 			key = pairCtx.DIGITS().GetText()
 		case pairCtx.List() != nil:
 			items := []string{}
-			// digit list
-			for _, num := range pairCtx.List().AllDIGITS() {
-				items = append(items, num.GetText())
-			}
-			// string list
-			for _, num := range pairCtx.List().AllSTRING() {
-				items = append(items, num.GetText())
+			// digits and strings in source order
+			for _, child := range pairCtx.List().GetChildren() {
+				if node, ok := child.(antlr.TerminalNode); ok {
+					switch node.GetSymbol().GetTokenType() {
+					case gen.PacketDslParserDIGITS, gen.PacketDslParserSTRING:
+						items = append(items, node.GetText())
+					}
+				}
 			}
 			key = formatStringList(items, 5)
 		}
